@@ -28,7 +28,20 @@ import subprocess
 import sys
 import time
 
-REPO = "/repo"
+def _repo_path():
+    """The crate under test is whatever the harness crate depends on (so that an isolated copy of
+    /verif pointed at a scratch worktree encodes that worktree)."""
+    ct = os.path.join(os.path.dirname(os.path.dirname(os.path.abspath(__file__))), "harness", "Cargo.toml")
+    try:
+        m = re.search(r'dvb_gse_rust\s*=\s*\{[^}]*path\s*=\s*"([^"]+)"', open(ct).read())
+        if m:
+            return m.group(1)
+    except OSError:
+        pass
+    return "/repo"
+
+
+REPO = _repo_path()
 W = {"usize": 64, "u64": 64, "u32": 32, "u16": 16, "u8": 8, "bool": 1, "isize": 64, "i32": 32, "i64": 64}
 N_MAX = 1 << 16
 
